@@ -198,6 +198,15 @@ func (c *Channel) JoinPresence(ctx context.Context, p stanza.Presence, opt ...Op
 	}
 	p.To = c.addr
 
+	// Make sure that presences from the room are routed to this channel, also
+	// when it is joined again after it has been left.
+	c.client.managedM.Lock()
+	if c.client.managed == nil {
+		c.client.managed = make(map[string]*Channel)
+	}
+	c.client.managed[p.To.String()] = c
+	c.client.managedM.Unlock()
+
 	conf := config{}
 	for _, o := range opt {
 		o(&conf)
